@@ -58,7 +58,13 @@ func (c *Ctx) layoutOf(fn *ssa.Function, writer bool) map[string]layoutEntry {
 			if x.Low == nil {
 				return "+0", true
 			}
-			return normSyms(fb.linString(fb.lin(x.Low))), true
+			l := fb.lin(x.Low)
+			for sym := range l.T {
+				if _, isPhi := sym.(*ssa.Phi); isPhi {
+					return "", false // a cursor carried round a loop: not a fixed place in the structure
+				}
+			}
+			return normSyms(fb.linString(l)), true
 		}
 		return "", false
 	}
@@ -322,7 +328,28 @@ func layoutAgreementRule(c *Ctx, r *Result, rule, what, writerName string, reade
 					}
 				}
 			}
+			explainedElsewhere := false
 			if !ok && layoutRename == nil && len(ra[f]) > 0 && multiVersionParser[rn] {
+				// every place the parser takes the field from belongs to another writer of the same structure
+				explainedElsewhere = true
+				for _, cand := range ra[f] {
+					matched := false
+					for _, p2 := range layoutPairs {
+						if p2[2] != rn || p2[1] == writerName {
+							continue
+						}
+						if w2 := c.FnOpt(p2[1]); w2 != nil {
+							if e2, has := c.layoutOf(w2, true)[f]; has && at8(e2.off) == at8(cand.off) && at8(cand.off) != "" {
+								matched = true
+							}
+						}
+					}
+					if !matched {
+						explainedElsewhere = false
+					}
+				}
+			}
+			if !ok && explainedElsewhere {
 				// the parser serves several versions and does not take this field from the writer's position in any of
 				// them: it may simply not read the field for this version
 				r.Undec(rule, fmt.Sprintf("%s~%s#%s", writerName, rn, f), re.pos, fmt.Sprintf("%s field %s: written at offset %s; the multi-version parser reads it elsewhere (%s) or not for this version", what, f, we.off, re.off))
@@ -711,6 +738,8 @@ var layoutPairs = [][3]string{
 	{"fractal heap indirect block", "structures.WritableIndirectBlock.writeAt", "structures.ParseIndirectBlock"},
 	{"superblock v2/v3", "core.Superblock.writeV2", "core.ReadSuperblock"},
 	{"superblock v0", "core.Superblock.writeV0", "core.ReadSuperblock"},
+	{"chunk B-tree node", "structures.serializeChunkBTreeNode", "core.ParseBTreeV1Node"},
+	{"group B-tree node", "structures.BTreeNodeV1.WriteAt", "structures.ReadGroupBTreeEntries"},
 }
 
 func init() {
